@@ -91,6 +91,19 @@ def gen_script(rnd, sid, family, thorough):
             b.reply_to(c, resp_type(b.reqs[c]["typ"]), size(), tag())
             b.wait(c)
             done.append(c)
+    if family == "retain":
+        # every caller keeps the []byte it got; all replies are short (1..128 bytes), delivered one after the
+        # other; each caller's bytes are inspected when it returns AND again after all later replies
+        short = [1, 2, 7, 16, 33, 64, 100, 127, 128]
+        while outstanding:
+            c = outstanding.pop(rnd.randrange(len(outstanding)))
+            b.reply_to(c, resp_type(b.reqs[c]["typ"]), rnd.choice(short), tag())
+            b.wait(c)
+            done.append(c)
+            if rnd.random() < 0.3:
+                new_caller()
+        for c in done:
+            b.wait(c)
     if family == "cancel" and outstanding:
         c = rnd.choice(outstanding)
         outstanding.remove(c)
@@ -135,7 +148,7 @@ def gen_script(rnd, sid, family, thorough):
     return sc
 
 
-FAMILIES = ["plain", "plain", "collide", "mixed", "cancel", "duplicate", "stray", "early"]
+FAMILIES = ["plain", "retain", "collide", "mixed", "cancel", "duplicate", "stray", "early"]
 
 
 def gen_scripts(seed, n, thorough):
